@@ -1307,4 +1307,254 @@ theorem cont_steps (steps : List CStep) (root1 : Val) (P : Pos) (c : Cls) (ys : 
 termination_by (steps.length, 0)
 end
 
+theorem renderStep_later {s : CStep} (hs : s.later) : renderStep s = '/' :: stepTok s := by
+  cases s with
+  | name n => rfl
+  | elem n e => rfl
+  | idx e => exact absurd hs (by simp [CStep.later])
+
+theorem cleanIdx_of_new_or_zero {e : Str} (he : e = sNew ∨ e = ['0']) : CleanIdx e := by
+  rcases he with rfl | rfl
+  · exact cleanIdx_new
+  · exact cleanIdx_nat 0
+
+theorem tokenize_stepTok {s : CStep} (hs : s.later) : tokenize (stepTok s) = [stepTok s] := by
+  cases s with
+  | name n => exact tokenize_key hs
+  | elem n e => exact tokenize_keyBracket hs.1 (cleanIdx_of_new_or_zero hs.2)
+  | idx e => exact absurd hs (by simp [CStep.later])
+
+/-- a text followed by the rendering of later steps -/
+theorem tokenize_then_steps : ∀ (steps : List CStep) (T : Str), (∀ x ∈ steps, x.later) →
+    tokenize (T ++ steps.flatMap renderStep) = tokenize T ++ steps.map stepTok
+  | [], T, _ => by simp
+  | s :: r, T, h => by
+    have hs := h s (by simp)
+    have ih := tokenize_then_steps r (stepTok s) (fun x hx => h x (by simp [hx]))
+    rw [List.flatMap_cons, renderStep_later hs,
+      show T ++ ('/' :: stepTok s ++ r.flatMap renderStep) = T ++ '/' :: (stepTok s ++ r.flatMap renderStep) by simp,
+      tokenize_append_slash, ih, tokenize_stepTok hs]
+    simp
+
+theorem addStores_new_on_list' (root0 : Val) (P : Pos) (c0 : Cls) (xs0 : List Val) (steps : List CStep) (v t' : Val)
+    (hP0 : getAt root0 P = some (.list c0 xs0)) (hsteps : ∀ x ∈ steps, x.later) (hg : GOk steps)
+    (hh : HeadName steps) (hset : setAt root0 P (.list c0 (xs0 ++ [fill steps v])) = some t') :
+    AddStores root0 (.at P) Option.none (bracket sNew :: steps.map stepTok) v t' := by
+  obtain ⟨root1, hs1⟩ := setAt_isSome P root0 _ (.list c0 (xs0 ++ [Val.none])) hP0
+  refine addStores_step (addStep_new_list root0 root1 P c0 xs0 hP0 hs1) ?_
+  apply cont_steps steps root1 P c0 xs0 v t' (getAt_setAt_same P root0 root1 _ hs1 (fun _ _ => trivial)) hsteps hg hh
+  rw [setAt_overwrite P root0 root1 _ _ hs1]; exact hset
+
+theorem addStores_len_on_list' (root0 : Val) (P : Pos) (c0 : Cls) (xs0 : List Val) (steps : List CStep) (v t' : Val)
+    (hP0 : getAt root0 P = some (.list c0 xs0)) (hsteps : ∀ x ∈ steps, x.later) (hg : GOk steps)
+    (hh : HeadName steps) (hset : setAt root0 P (.list c0 (xs0 ++ [fill steps v])) = some t') :
+    AddStores root0 (.at P) (some (bracket (natStr xs0.length))) (bracket (natStr xs0.length) :: steps.map stepTok) v t' := by
+  obtain ⟨root1, hs1⟩ := setAt_isSome P root0 _ (.list c0 (xs0 ++ [Val.none])) hP0
+  refine addStores_step (addStep_len_list root0 root1 P c0 xs0 hP0 hs1) ?_
+  apply cont_steps steps root1 P c0 xs0 v t' (getAt_setAt_same P root0 root1 _ hs1 (fun _ _ => trivial)) hsteps hg hh
+  rw [setAt_overwrite P root0 root1 _ _ hs1]; exact hset
+
+/-- what `_find` returns for `…/name[new()]/…` when `name` exists (any further tokens) -/
+theorem find_new_existing (cls : Cls) (kvs : List (Str × Val)) (q : Pos) (kcls : Cls)
+    (nkvs : List (Str × Val)) (name : Str) (old : Val) (tt : List Str) (fuel : Nat)
+    (hp : PlainPos q) (hget : getAt (.dict cls kvs) q = some (.dict kcls nkvs)) (hn : PlainKey name)
+    (hl : lookup name nkvs = some old) (hf : fuel ≥ 4 * (q.length + 1)) :
+    ∃ fnd, findD fuel (.dict cls kvs) [] false true (mergedToks q ++ (name ++ bracket sNew) :: tt) (.at []) true slash
+      = .ok (if isList old then .dict cls kvs
+             else (setAt (.dict cls kvs) q (.dict kcls (kvSet name (.list .n0 [old]) nkvs))).getD (.dict cls kvs),
+          { parent := .at (q ++ [.key name]), nameIdx := Option.none, value := Val.none, found := fnd,
+            notFound := some (bracket sNew :: tt) }) := by
+  have hlen := mergedToks_length_le q
+  have hsplit := split_bracket name sNew (Or.inr hn) idxExpr_new
+  obtain ⟨f', e', h1, _, hwalk⟩ := find_walk (.dict cls kvs) true (spellsF_merged q _ _ hp hget)
+    ((name ++ bracket sNew) :: tt) (by simp) fuel [] slash true rfl (by omega)
+  obtain ⟨f, rfl⟩ : ∃ f, f' = f + 2 := ⟨f' - 2, by omega⟩
+  obtain ⟨fnd, hnew⟩ := find_new_step f (.dict cls kvs) false true q name tt kcls nkvs old hp hn hget hl (by omega)
+  refine ⟨fnd, ?_⟩
+  rw [hwalk, List.nil_append, find_keyidx_step' (f + 1) _ e' true q _ _ name sNew tt kcls nkvs old hget hsplit hn.ne hn.notUp
+    hn.keyTok.notStar hl, renderPos_snoc_key, hnew]
+
+/-- what `_find` returns for `…/name[len]/…` when `name` holds a list of length `len` -/
+theorem find_len_existing (cls : Cls) (kvs : List (Str × Val)) (q : Pos) (kcls : Cls)
+    (nkvs : List (Str × Val)) (name : Str) (c : Cls) (xs : List Val) (tt : List Str) (fuel : Nat)
+    (hp : PlainPos q) (hget : getAt (.dict cls kvs) q = some (.dict kcls nkvs)) (hn : PlainKey name)
+    (hl : lookup name nkvs = some (.list c xs)) (hf : fuel ≥ 2 * q.length + 2) :
+    ∃ fnd, findD fuel (.dict cls kvs) [] false true (mergedToks q ++ (name ++ bracket (natStr xs.length)) :: tt) (.at [])
+        true slash
+      = .ok (.dict cls kvs,
+          { parent := .at (q ++ [.key name]), nameIdx := some (bracket (natStr xs.length)), value := Val.none,
+            found := fnd, notFound := some (bracket (natStr xs.length) :: tt) }) := by
+  have hlen := mergedToks_length_le q
+  have hsplit := split_bracket name (natStr xs.length) (Or.inr hn) (natStr_idxExpr _)
+  obtain ⟨f', e', h1, _, hwalk⟩ := find_walk (.dict cls kvs) true (spellsF_merged q _ _ hp hget)
+    ((name ++ bracket (natStr xs.length)) :: tt) (by simp) fuel [] slash true rfl (by omega)
+  obtain ⟨f, rfl⟩ : ∃ f, f' = f + 2 := ⟨f' - 2, by omega⟩
+  have hP : getAt (.dict cls kvs) (q ++ [Seg.key name]) = some (.list c xs) := by
+    rw [getAt_snoc, hget]; simp [child, hl]
+  refine ⟨slash ++ renderPos q ++ slash ++ name, ?_⟩
+  rw [hwalk, List.nil_append, find_keyidx_step' (f + 1) _ e' true q _ _ name _ tt kcls nkvs _ hget hsplit hn.ne hn.notUp
+    hn.keyTok.notStar hl,
+    find_idx_miss f _ false true (q ++ [Seg.key name]) _ _ _ (xs.length : Int) tt c xs hP (natStr_idxTok xs.length)
+      (Or.inl (Int.le_refl _))]
+  rfl
+
+/-- tokens of `//…q…` followed by a first named step and later steps -/
+theorem tokenize_steps_path (q : Pos) (hp : PlainPos q) (s : CStep) (steps : List CStep)
+    (hs : PlainKey s.nameOf) (hce : ∀ n e, s = .elem n e → CleanIdx e) (hidx : ∀ e, s ≠ .idx e)
+    (hsteps : ∀ x ∈ steps, x.later) :
+    tokenize (slash ++ renderPos q ++ (s :: steps).flatMap renderStep) = mergedToks q ++ stepTok s :: steps.map stepTok := by
+  rw [List.flatMap_cons, ← List.append_assoc, tokenize_then_steps steps _ hsteps]
+  cases s with
+  | idx e => exact absurd rfl (hidx e)
+  | name n =>
+    have h1 := tokenize_render (q ++ [Seg.key n]) (hp.append ⟨hs, trivial⟩)
+    rw [mergedToks_append_key] at h1
+    have : slash ++ renderPos q ++ renderStep (.name n) = '/' :: renderPos (q ++ [Seg.key n]) := by
+      simp [renderStep, renderPos, renderSeg, slash]
+    rw [this, h1]
+    simp [mergedToks, stepTok]
+  | elem n e =>
+    have hs' : PlainKey n := hs
+    have h1 := tokenize_elem_path q hp hs' (hce n e rfl) [] (by simp)
+    have : slash ++ renderPos q ++ renderStep (.elem n e)
+        = slash ++ renderPos q ++ slash ++ (n ++ bracket e) ++ renderPos (([] : List Str).map Seg.key) := by
+      simp [renderStep, renderPos, slash]
+    rw [this, h1]
+    simp [stepTok]
+
+/-- **C03 (honoured grammar, first step below a dict).**  For every creation path whose first step
+is a name step or a named element-creating step below the existing dict node `q`, and whose later
+steps are fresh names / `n[new()]` / `n[0]` with every element-creating step last or followed by a
+name: `d[path] = v` yields exactly the reference semantics `createIn`. -/
+theorem setItem_create_steps (cls : Cls) (kvs : List (Str × Val)) (q : Pos) (kcls : Cls) (nkvs : List (Str × Val))
+    (s : CStep) (steps : List CStep) (v cur' t' : Val) (fuel : Nat)
+    (hp : PlainPos q) (hget : getAt (.dict cls kvs) q = some (.dict kcls nkvs))
+    (hs : PlainKey s.nameOf) (hidx : ∀ e, s ≠ .idx e) (hsteps : ∀ x ∈ steps, x.later) (hg : GOk (s :: steps))
+    (hcreate : createIn (.dict kcls nkvs) (s :: steps) v = some cur')
+    (hset : setAt (.dict cls kvs) q cur' = some t') (hf : fuel ≥ 4 * (q.length + 1)) :
+    setItem fuel (.dict cls kvs) (slash ++ renderPos q ++ (s :: steps).flatMap renderStep) v = (t', .ok ()) := by
+  have hlen := mergedToks_length_le q
+  have hqm : startsWith (slash ++ renderPos q ++ (s :: steps).flatMap renderStep) ['?'] = false := by
+    simp [slash, startsWith, List.append_assoc]
+  have hpc : hasPathChar (slash ++ renderPos q ++ (s :: steps).flatMap renderStep) = true := by
+    simp [hasPathChar, slash]
+  -- a write of `X` into the slot `nameOf s`, seen at `q`
+  have hslot : ∀ X, setAt (.dict cls kvs) (q ++ [Seg.key s.nameOf]) X
+      = setAt (.dict cls kvs) q (.dict kcls (kvSet s.nameOf X nkvs)) := fun X =>
+    setAt_snoc q _ (.key s.nameOf) X _ _ hget (by simp [setChild])
+  cases s with
+  | idx e => exact absurd rfl (hidx e)
+  | name n =>
+    simp only [CStep.nameOf] at hs hslot
+    simp only [createIn] at hcreate
+    split at hcreate
+    · rename_i hl
+      cases hcreate
+      rw [← hslot] at hset
+      have htok := tokenize_steps_path q hp (.name n) steps hs (by intro _ _ h; cases h) hidx hsteps
+      have hfind := find_walk_miss (.dict cls kvs) true (spellsF_merged q _ _ hp hget) n n .none (steps.map stepTok)
+        hs.keyTok.split hs.ne hs.notUp hs.keyTok.notStar hl fuel [] slash true rfl (by omega)
+      rw [List.nil_append] at hfind
+      refine setItem_of_find hqm hpc htok hfind rfl (by simp [stepTok]) ?_
+      -- first level of `_add`, then the general induction
+      obtain ⟨root1, hs1⟩ := setAt_isSome q (.dict cls kvs) _ (.dict kcls (kvSet n emptyN0Dict nkvs)) hget
+      have hstep := addStep_name_first _ root1 q kcls nkvs n hget hs hl hs1
+      have hg1 : getAt root1 q = some (.dict kcls (kvSet n emptyN0Dict nkvs)) :=
+        getAt_setAt_same _ _ root1 _ hs1 (fun _ _ => trivial)
+      have hs1' : setAt (.dict cls kvs) (q ++ [Seg.key n]) emptyN0Dict = some root1 := by rw [hslot]; exact hs1
+      simp only [stepTok]
+      refine addStores_step hstep ⟨?_, ?_⟩
+      · intro hnil
+        have : steps = [] := by simpa using hnil
+        subst this
+        apply storeAt_key root1 t' q kcls _ n v hg1 hs
+        rw [setAt_overwrite _ _ root1 _ _ hs1, kvSet_kvSet, ← hslot]
+        simpa [fill] using hset
+      · intro hne
+        obtain ⟨s2, r, rfl⟩ : ∃ s2 r, steps = s2 :: r := by
+          cases steps with
+          | nil => exact absurd rfl hne
+          | cons s2 r => exact ⟨s2, r, rfl⟩
+        have hs2 := hsteps s2 (by simp)
+        simp only [List.map_cons]
+        apply add_store_steps r root1 q kcls (kvSet n emptyN0Dict nkvs) n .n0 [] s2 v t' hg1 hs
+          (lookup_kvSet_same _ _ _) hs2 (fun x hx => hsteps x (by simp [hx])) hg.tail rfl
+        have := setAt_into_written _ root1 (q ++ [Seg.key n]) .n0 [] s2.nameOf (slotVal s2 r v) hs1'
+        rw [show q ++ [Seg.key n, Seg.key s2.nameOf] = q ++ [Seg.key n] ++ [Seg.key s2.nameOf] by simp, this]
+        simpa [fill_cons_later s2 r v hs2, kvSet] using hset
+    · cases hcreate
+  | elem n e =>
+    simp only [CStep.nameOf] at hs hslot
+    have hh : HeadName steps := hg.headName_of_elem
+    simp only [createIn] at hcreate
+    split at hcreate
+    · -- fresh name
+      rename_i hl
+      split at hcreate
+      · rename_i he
+        cases hcreate
+        rw [← hslot] at hset
+        have htok := tokenize_steps_path q hp (.elem n e) steps hs
+          (by intro _ _ h; cases h; exact cleanIdx_of_new_or_zero he) hidx hsteps
+        have hie : IdxExpr e := by
+          rcases he with rfl | rfl
+          · exact idxExpr_new
+          · exact (natStr_idxExpr 0)
+        have hfind := find_walk_miss (.dict cls kvs) true (spellsF_merged q _ _ hp hget) (n ++ bracket e) n (.str e)
+          (steps.map stepTok) (split_bracket n e (Or.inr hs) hie) hs.ne hs.notUp hs.keyTok.notStar hl fuel [] slash true rfl
+          (by omega)
+        rw [List.nil_append] at hfind
+        refine setItem_of_find hqm hpc htok hfind rfl (by simp [stepTok]) ?_
+        obtain ⟨root1, hs1⟩ := setAt_isSome q (.dict cls kvs) _ (.dict kcls (kvSet n (.list .n0 [Val.none]) nkvs)) hget
+        simp only [stepTok]
+        refine addStores_step (addStep_elem_first _ root1 q kcls nkvs n e hget hs he hl hs1) ?_
+        have hs1' : setAt (.dict cls kvs) (q ++ [Seg.key n]) (.list .n0 [Val.none]) = some root1 := by rw [hslot]; exact hs1
+        apply cont_steps steps root1 (q ++ [Seg.key n]) .n0 [] v t'
+          (getAt_setAt_same _ _ root1 _ hs1' (fun _ _ => trivial)) hsteps hg.tail hh
+        rw [setAt_overwrite _ _ root1 _ _ hs1']
+        exact hset
+      · cases hcreate
+    · -- existing name
+      rename_i old hl
+      have hP : getAt (.dict cls kvs) (q ++ [Seg.key n]) = some old := by
+        rw [getAt_snoc, hget]; simp [child, hl]
+      split at hcreate
+      · rename_i he
+        subst he
+        cases hcreate
+        rw [← hslot] at hset
+        have htok := tokenize_steps_path q hp (.elem n sNew) steps hs
+          (by intro _ _ h; cases h; exact cleanIdx_new) hidx hsteps
+        obtain ⟨fnd, hfind⟩ := find_new_existing cls kvs q kcls nkvs n old (steps.map stepTok) fuel hp hget hs hl hf
+        refine setItem_of_find hqm hpc htok hfind rfl (by simp) ?_
+        by_cases hlist : isList old = true
+        · obtain ⟨c, xs, rfl⟩ := isList_inv hlist
+          simp only [isList, if_true]
+          exact addStores_new_on_list' _ _ c xs steps v t' hP hsteps hg.tail hh hset
+        · simp only [hlist]
+          rw [← hslot]
+          obtain ⟨root0, hs0⟩ := setAt_isSome (q ++ [Seg.key n]) (.dict cls kvs) _ (.list .n0 [old]) hP
+          rw [hs0]
+          simp only [Option.getD_some]
+          apply addStores_new_on_list' root0 _ .n0 [old] steps v t'
+            (getAt_setAt_same _ _ root0 _ hs0 (fun _ _ => trivial)) hsteps hg.tail hh
+          rw [setAt_overwrite _ _ root0 _ _ hs0]
+          rw [appendTo_nonlist (by simpa using hlist)] at hset
+          exact hset
+      · split at hcreate
+        · rename_i c' xs
+          split at hcreate
+          · rename_i he
+            subst he
+            cases hcreate
+            rw [← hslot] at hset
+            have htok := tokenize_steps_path q hp (.elem n (natStr xs.length)) steps hs
+              (by intro _ _ h; cases h; exact cleanIdx_nat _) hidx hsteps
+            obtain ⟨fnd, hfind⟩ := find_len_existing cls kvs q kcls nkvs n c' xs (steps.map stepTok) fuel hp hget hs hl
+              (by omega)
+            refine setItem_of_find hqm hpc htok hfind rfl (by simp) ?_
+            exact addStores_len_on_list' _ _ c' xs steps v t' hP hsteps hg.tail hh hset
+          · cases hcreate
+        · cases hcreate
+
 end N0.XPath
